@@ -2436,3 +2436,257 @@ theorem cieFromOffset_section (c : Cfg) (bases : Bases) (es1 es2 : List AEntry) 
   exact this
 
 end Gimli.CfiEntry
+namespace Gimli.Spec.Frame
+open Gimli Gimli.Ints Gimli.CfiEntry
+
+/-- abstract `.eh_frame_hdr`: the three encoding bytes, the operand of the `eh_frame_ptr` field and
+the table rows as operand pairs (initial location, FDE address) -/
+structure AHdr where
+  ptrEnc : Nat
+  cntEnc : Nat
+  tblEnc : Nat
+  ptrOp : Nat
+  rows : List (Nat × Nat)
+
+def op (e : Endian) (enc asz x : Nat) : Bytes := (encodeOperand e enc asz x).getD []
+
+def AHdr.rowBytes (e : Endian) (asz : Nat) (h : AHdr) (r : Nat × Nat) : Bytes :=
+  op e h.tblEnc asz r.1 ++ op e h.tblEnc asz r.2
+
+def AHdr.tableBytes (e : Endian) (asz : Nat) (h : AHdr) : Bytes := h.rows.flatMap (h.rowBytes e asz)
+
+/-- version 1, three encodings, `eh_frame_ptr`, `fde_count`, the table -/
+def encodeHdr (e : Endian) (asz : Nat) (h : AHdr) : Bytes :=
+  1 :: UInt8.ofNat h.ptrEnc :: UInt8.ofNat h.cntEnc :: UInt8.ofNat h.tblEnc ::
+    (op e h.ptrEnc asz h.ptrOp ++ (op e h.cntEnc asz h.rows.length ++ h.tableBytes e asz))
+
+/-- offset of the table -/
+def AHdr.tableOff (e : Endian) (asz : Nat) (h : AHdr) : Nat :=
+  4 + (op e h.ptrEnc asz h.ptrOp).length + (op e h.cntEnc asz h.rows.length).length
+
+structure AHdr.WF (e : Endian) (bases : Bases) (asz : Nat) (h : AHdr) : Prop where
+  hp : h.ptrEnc < 256
+  hc : h.cntEnc < 256 ∧ isValidEncoding h.cntEnc = true ∧ h.cntEnc ≠ 0xff ∧ h.cntEnc = peFormat h.cntEnc
+  ht : h.tblEnc < 256 ∧ isValidEncoding h.tblEnc = true ∧ h.tblEnc ≠ 0xff
+  hptr : PtrOk e h.ptrEnc ⟨bases.ehFrameHdr, none, asz⟩ 4 h.ptrOp
+  hcnt : (encodeOperand e h.cntEnc asz h.rows.length).isSome = true
+
+/-- the `ParsedEhFrameHdr` the reader must report -/
+def AHdr.expect (e : Endian) (bases : Bases) (asz : Nat) (h : AHdr) : Hdr :=
+  { asz := asz,
+    ehFramePtr := Ptr.new h.ptrEnc (((neededBase h.ptrEnc ⟨bases.ehFrameHdr, none, asz⟩ 4).getD 0 + h.ptrOp)
+      % 2 ^ 64 % 2 ^ (8 * asz)),
+    fdeCount := h.rows.length, tableEnc := h.tblEnc, table := ⟨h.tableOff e asz, h.tableBytes e asz⟩ }
+
+end Gimli.Spec.Frame
+
+namespace Gimli.CfiEntry
+open Gimli Gimli.Ints Gimli.Spec.Frame
+set_option linter.unusedSimpArgs false
+
+theorem parseHdr_encoded (m : Mode) (e : Endian) (bases : Bases) (asz : Nat) (h : AHdr)
+    (hw : h.WF e bases asz) :
+    parseHdr m e bases asz (encodeHdr e asz h) = .ok (h.expect e bases asz) := by
+  obtain ⟨hp, ⟨hc1, hc2, hc3, hc4⟩, ⟨ht1, ht2, ht3⟩, hptr, hcnt⟩ := hw
+  have hpv := hptr.1
+  have hpo := hptr.2.1
+  unfold parseHdr encodeHdr
+  dsimp only
+  rw [u8_cons]
+  simp only [Out.bind_ok, show (1 : UInt8).toNat = 1 by decide, ne_eq, not_true_eq_false, if_false]
+  rw [parsePointerEncoding_byte _ _ _ hp hpv]
+  simp only [Out.bind_ok]
+  rw [parsePointerEncoding_byte _ _ _ hc1 hc2]
+  simp only [Out.bind_ok]
+  rw [parsePointerEncoding_byte _ _ _ ht1 ht2]
+  simp only [Out.bind_ok]
+  rw [if_neg hpo]
+  unfold Spec.Frame.op
+  have h4 : (0 : Nat) + 1 + 1 + 1 + 1 = 4 := rfl
+  rw [h4, pep_ptrOk m e h.ptrEnc ⟨bases.ehFrameHdr, none, asz⟩ 4 h.ptrOp _ hptr]
+  simp only [Out.bind_ok]
+  unfold hdrCount
+  rw [if_neg (by simp [hc3, ht3]), if_neg (by intro hne; exact hne hc4)]
+  rw [pev_some e h.cntEnc asz h.rows.length _ _ hcnt]
+  simp only [Out.bind_ok, Out.pure_eq, AHdr.expect, AHdr.tableOff, Spec.Frame.op]
+
+end Gimli.CfiEntry
+namespace Gimli.Spec.Frame
+open Gimli Gimli.Ints Gimli.CfiEntry
+
+/-- the pointer a table field with operand `x` at section offset `off` denotes -/
+def AHdr.fieldVal (bases : Bases) (asz : Nat) (h : AHdr) (off x : Nat) : Nat :=
+  ((neededBase h.tblEnc ⟨bases.ehFrameHdr, none, asz⟩ off).getD 0 + x) % 2 ^ 64 % 2 ^ (8 * asz)
+
+/-- both fields of row `i` (at table offset `T0`) are encodable and their bases provided -/
+def AHdr.RowOk (e : Endian) (bases : Bases) (asz : Nat) (h : AHdr) (T0 size i : Nat) (r : Nat × Nat) : Prop :=
+  PtrOk e h.tblEnc ⟨bases.ehFrameHdr, none, asz⟩ (T0 + i * (size * 2)) r.1 ∧
+  PtrOk e h.tblEnc ⟨bases.ehFrameHdr, none, asz⟩ (T0 + i * (size * 2) + size) r.2
+
+end Gimli.Spec.Frame
+
+namespace Gimli.CfiEntry
+open Gimli Gimli.Ints Gimli.Spec.Frame
+set_option linter.unusedSimpArgs false
+
+theorem op_length (e : Endian) (enc asz x size : Nat) (hs : tableEntrySize enc = some size)
+    (hx : (encodeOperand e enc asz x).isSome = true) : (Spec.Frame.op e enc asz x).length = size := by
+  obtain ⟨bytes, hb⟩ := Option.isSome_iff_exists.mp hx
+  unfold Spec.Frame.op
+  rw [hb]
+  simp only [Option.getD_some]
+  unfold tableEntrySize at hs
+  unfold encodeOperand at hb
+  simp only at hs hb
+  split at hs
+  · rename_i hf
+    have : size = 2 := by simpa using hs.symm
+    subst this
+    rcases hf with hf | hf <;> (simp [hf] at hb; rw [← hb.2]; simp [toBytes_length])
+  · split at hs
+    · rename_i hf
+      have : size = 4 := by simpa using hs.symm
+      subst this
+      rcases hf with hf | hf <;> (simp [hf] at hb; rw [← hb.2]; simp [toBytes_length])
+    · split at hs
+      · rename_i hf
+        have : size = 8 := by simpa using hs.symm
+        subst this
+        rcases hf with hf | hf <;> (simp [hf] at hb; rw [← hb.2]; simp [toBytes_length])
+      · simp at hs
+
+theorem flatMap_drop {α : Type} (f : α → Bytes) (rs : Nat) :
+    ∀ (rows : List α) (i : Nat), (∀ r, r ∈ rows → (f r).length = rs) →
+      (rows.flatMap f).drop (i * rs) = (rows.drop i).flatMap f := by
+  intro rows
+  induction rows with
+  | nil => intro i _; simp
+  | cons r t ih =>
+    intro i h
+    cases i with
+    | zero => simp
+    | succ i =>
+      have hr : (f r).length = rs := h r (by simp)
+      simp only [List.flatMap_cons, List.drop_succ_cons]
+      rw [Nat.succ_mul, Nat.add_comm, ← List.drop_drop, List.drop_left' hr]
+      exact ih i (fun x hx => h x (by simp [hx]))
+
+theorem ptrAt_exact (m : Mode) (e : Endian) (enc : Nat) (p : PeParams) (off x : Nat) (h : PtrOk e enc p off x) :
+    ptrAt m e enc p off (Spec.Frame.op e enc p.asz x) =
+      .ok (Ptr.new enc (((neededBase enc p off).getD 0 + x) % 2 ^ 64 % 2 ^ (8 * p.asz))) := by
+  unfold ptrAt Spec.Frame.op
+  have := pep_ptrOk m e enc p off x [] h
+  simp only [List.append_nil] at this
+  rw [this]
+  rfl
+
+theorem rows_encoded (m : Mode) (e : Endian) (bases : Bases) (asz : Nat) (h : AHdr) (T0 size : Nat)
+    (hs : tableEntrySize h.tblEnc = some size)
+    (hok : ∀ i r, h.rows[i]? = some r → h.RowOk e bases asz T0 size i r) :
+    ∀ i r, h.rows[i]? = some r →
+      rowKey m e h.tblEnc ⟨bases.ehFrameHdr, none, asz⟩ T0 (h.tableBytes e asz) size i =
+        .ok (Ptr.new h.tblEnc (h.fieldVal bases asz (T0 + i * (size * 2)) r.1)) ∧
+      rowVal m e h.tblEnc ⟨bases.ehFrameHdr, none, asz⟩ T0 (h.tableBytes e asz) size i =
+        .ok (Ptr.new h.tblEnc (h.fieldVal bases asz (T0 + i * (size * 2) + size) r.2)) := by
+  have hlen : ∀ r, r ∈ h.rows → (h.rowBytes e asz r).length = size * 2 := by
+    intro r hr
+    obtain ⟨i, hi⟩ := List.mem_iff_getElem?.mp hr
+    obtain ⟨h1, h2⟩ := hok i r hi
+    unfold AHdr.rowBytes
+    rw [List.length_append, op_length e _ asz _ size hs h1.2.2.2.2.2.2, op_length e _ asz _ size hs h2.2.2.2.2.2.2]
+    omega
+  intro i r hi
+  obtain ⟨h1, h2⟩ := hok i r hi
+  have hl1 := op_length e _ asz _ size hs h1.2.2.2.2.2.2
+  have hl2 := op_length e _ asz _ size hs h2.2.2.2.2.2.2
+  have hdrop : (h.tableBytes e asz).drop (i * (size * 2)) =
+      Spec.Frame.op e h.tblEnc asz r.1 ++ (Spec.Frame.op e h.tblEnc asz r.2 ++ (h.rows.drop (i + 1)).flatMap (h.rowBytes e asz)) := by
+    unfold AHdr.tableBytes
+    rw [flatMap_drop _ _ _ _ hlen]
+    have hi' : i < h.rows.length := by
+      rcases Nat.lt_or_ge i h.rows.length with hlt | hge
+      · exact hlt
+      · rw [List.getElem?_eq_none hge] at hi; simp at hi
+    have hget : h.rows[i] = r := by
+      rw [List.getElem?_eq_getElem hi'] at hi
+      exact Option.some.inj hi
+    rw [List.drop_eq_getElem_cons hi', hget]
+    simp [AHdr.rowBytes]
+  constructor
+  · unfold rowKey
+    rw [hdrop, List.take_left' hl1]
+    exact ptrAt_exact m e h.tblEnc ⟨bases.ehFrameHdr, none, asz⟩ _ _ h1
+  · unfold rowVal
+    rw [← List.drop_drop, hdrop, List.drop_left' hl1, List.take_left' hl2]
+    exact ptrAt_exact m e h.tblEnc ⟨bases.ehFrameHdr, none, asz⟩ _ _ h2
+
+theorem flatMap_length {α : Type} (f : α → Bytes) (rs : Nat) :
+    ∀ (rows : List α), (∀ r, r ∈ rows → (f r).length = rs) → (rows.flatMap f).length = rows.length * rs := by
+  intro rows
+  induction rows with
+  | nil => intro _; simp
+  | cons r t ih =>
+    intro h
+    simp only [List.flatMap_cons, List.length_append, List.length_cons]
+    rw [h r (by simp), ih (fun x hx => h x (by simp [hx])), Nat.succ_mul]
+    omega
+
+/-- key of row `i` of an abstract table laid out at offset `T0` -/
+def hdrKey (bases : Bases) (asz : Nat) (h : AHdr) (T0 size i : Nat) : Nat :=
+  match h.rows[i]? with
+  | some r => h.fieldVal bases asz (T0 + i * (size * 2)) r.1
+  | none => 0
+
+def hdrVal (bases : Bases) (asz : Nat) (h : AHdr) (T0 size i : Nat) : Nat :=
+  match h.rows[i]? with
+  | some r => h.fieldVal bases asz (T0 + i * (size * 2) + size) r.2
+  | none => 0
+
+theorem ptr_new_direct (enc v : Nat) (h : peIndirect enc = false) : Ptr.new enc v = .direct v := by
+  unfold Ptr.new; simp [h]
+
+theorem hdr_encoded_lookup (m : Mode) (e : Endian) (bases : Bases) (asz : Nat) (h : AHdr) (a size : Nat)
+    (hw : h.WF e bases asz) (hs : tableEntrySize h.tblEnc = some size) (hdirect : peIndirect h.tblEnc = false)
+    (hne : 1 ≤ h.rows.length) (hbig : (h.tableBytes e asz).length < 2 ^ 64)
+    (hok : ∀ i r, h.rows[i]? = some r → h.RowOk e bases asz (h.tableOff e asz) size i r)
+    (hsorted : ∀ i j, i ≤ j → j < h.rows.length →
+      hdrKey bases asz h (h.tableOff e asz) size i ≤ hdrKey bases asz h (h.tableOff e asz) size j) :
+    parseHdr m e bases asz (encodeHdr e asz h) = .ok (h.expect e bases asz) ∧
+    ∃ idx, idx < h.rows.length ∧
+      lookup m e (h.expect e bases asz) bases a = .ok (.direct (hdrVal bases asz h (h.tableOff e asz) size idx)) ∧
+      ((hdrKey bases asz h (h.tableOff e asz) size idx ≤ a ∧
+          ∀ j, j < h.rows.length → hdrKey bases asz h (h.tableOff e asz) size j ≤ a →
+            hdrKey bases asz h (h.tableOff e asz) size j ≤ hdrKey bases asz h (h.tableOff e asz) size idx) ∨
+       (idx = 0 ∧ ∀ j, j < h.rows.length → a < hdrKey bases asz h (h.tableOff e asz) size j)) := by
+  refine ⟨parseHdr_encoded m e bases asz h hw, ?_⟩
+  have hrows := rows_encoded m e bases asz h (h.tableOff e asz) size hs hok
+  have hlen : ∀ r, r ∈ h.rows → (h.rowBytes e asz r).length = size * 2 := by
+    intro r hr
+    obtain ⟨i, hi⟩ := List.mem_iff_getElem?.mp hr
+    obtain ⟨h1, h2⟩ := hok i r hi
+    unfold AHdr.rowBytes
+    rw [List.length_append, op_length e _ asz _ size hs h1.2.2.2.2.2.2, op_length e _ asz _ size hs h2.2.2.2.2.2.2]
+    omega
+  have htl : (h.tableBytes e asz).length = h.rows.length * (size * 2) := flatMap_length _ _ _ hlen
+  have hget : ∀ i, i < h.rows.length → h.rows[i]? = some (h.rows[i]!) := by
+    intro i hi
+    simp [List.getElem?_eq_getElem hi, List.getElem!_eq_getElem?_getD]
+  obtain ⟨idx, hidx, hlk, hprop⟩ := lookup_correct m e (h.expect e bases asz) bases a size
+    (hdrKey bases asz h (h.tableOff e asz) size) hs hne (by simp [AHdr.expect, htl]) hbig
+    (by
+      intro i hi
+      have := (hrows i _ (hget i hi)).1
+      simp only [AHdr.expect, Hdr.params] at this ⊢
+      rw [this, ptr_new_direct _ _ hdirect]
+      unfold hdrKey
+      rw [hget i hi])
+    hsorted
+  refine ⟨idx, hidx, ?_, hprop⟩
+  rw [hlk]
+  have := (hrows idx _ (hget idx hidx)).2
+  simp only [AHdr.expect, Hdr.params] at this ⊢
+  rw [this, ptr_new_direct _ _ hdirect]
+  unfold hdrVal
+  rw [hget idx hidx]
+
+end Gimli.CfiEntry
